@@ -2,11 +2,13 @@
 //@ default-props C12 C05
 // Unit S: sort.rs -- dependency analysis.  Under contract here: Frame::{from_rule_and_index, visit},
 // rules_to_frame_buffer (duplicate-target verdict, canonical frame table), topological_sort / topological_sort_all
-// (missing-goal verdict, call protocol).  The depth-first traversal `sort_once` and `get_result` are covered by the
-// BOUNDED stand-in tools/bounded_sort.py (labelled bounded in the evidence, never counted as proved).
+// (missing-goal verdict, call protocol), TopologicalSortMachine::{new, sort_once, get_result}: panic-freedom, termination, every
+// source of every emitted rule bound by name.  Exactness of the cycle verdict, order, scope and permutation invariance of the
+// traversal are covered by the BOUNDED stand-in tools/bounded_sort.py (labelled bounded in the evidence, never counted as proved).
 use vstd::prelude::*;
 use vstd::std_specs::hash::*;
 use std::collections::HashMap;
+use std::collections::HashSet;
 verus! {
 
 //@ extract ticket.rs struct Ticket
@@ -176,46 +178,340 @@ spec fn index_ok_partial(m: Map<String, (usize, usize)>, tab: Seq<RuleSpec>, k: 
     &&& forall|b: int, s: int, key: String| #![trigger is_target(tab, b, s, key@)] (0 <= b < k || (b == k && s < j)) && is_target(tab, b, s, key@) ==> m.contains_key(key) && m[key].0 as int == b && m[key].1 as int == s
 }
 
-// ---- the traversal itself is NOT under contract here: BOUNDED stand-in (tools/bounded_sort.py) ----
-struct TopologicalSortMachine { x: u8 }
-impl TopologicalSortMachine {
-    #[verifier::external_body] fn new(frame_buffer : Vec<FrameBufferValue>, to_buffer_index : HashMap<String, (usize, usize)>) -> (r: Self) { unimplemented!() }
-    #[verifier::external_body] fn sort_once(&mut self, index : usize, sub_index : usize) -> (r: Result<(), TopologicalSortError>) { unimplemented!() }
-    #[verifier::external_body] fn get_result(self) -> (r: Result<NodePack, TopologicalSortError>) { unimplemented!() }
+// ASSUMED (R8): std::collections::BTreeSet<String> as a set with ordered iteration
+struct BTreeSet<K> { s: Ghost<Set<K>> }
+impl BTreeSet<String> {
+    spec fn view(&self) -> Set<String> { self.s@ }
+    #[verifier::external_body] fn new() -> (r: Self) ensures r@ == Set::<String>::empty() { unimplemented!() }
+    #[verifier::external_body] fn insert(&mut self, k: String) -> (r: bool) ensures final(self)@ == old(self)@.insert(k) { unimplemented!() }
 }
-spec fn some_target(tab: Seq<RuleSpec>, t: Seq<char>) -> bool { exists|b: int, s: int| #![trigger is_target(tab, b, s, t)] is_target(tab, b, s, t) }
+//@ extract sort.rs struct TopologicalSortMachine
+//@ end
+// R4/R8: iterating a BTreeSet<String> yields its elements in order, each once
+#[verifier::external_body]
+fn btree_into_vec(s: BTreeSet<String>) -> (r: Vec<String>)
+    ensures forall|x: String| s@.contains(x) <==> #[trigger] r@.contains(x), r@.no_duplicates(), r@.len() < usize::MAX,
+{ unimplemented!() }
+impl NodePack {
+//@ extract sort.rs impl /^NodePack$/ fn new
+//@ props C12
+//@ ret res
+//@ spec
+        ensures res.leaves == leaves, res.nodes == nodes,
+//@ end
+}
+// the element that turned l0 into l1 (ghost helper for the hint at source_leaves.insert)
+spec fn string_inserted(l0: Set<String>, l1: Set<String>) -> String { choose|x: String| l1 == l0.insert(x) }
+#[verifier::external_body] proof fn usize_key_model() ensures obeys_key_model::<usize>() {}
+#[verifier::external_body] fn string_to_owned(s: &String) -> (r: String) ensures r == *s { s.to_owned() }
+// R4: `stack.iter().position(|f| f.index == *buffer_index && !f.visited)`
+#[verifier::external_body]
+fn position_unvisited(stack: &Vec<Frame>, idx: usize) -> (r: Option<usize>)
+    ensures r matches Some(p) ==> p < stack@.len() && stack@[p as int].index == idx && !stack@[p as int].visited,
+        r is None ==> forall|p: int| 0 <= p < stack@.len() ==> !(#[trigger] stack@[p].index == idx && !stack@[p].visited),
+{ stack.iter().position(|f| f.index == idx && !f.visited) }
 
-//@ extract sort.rs fn topological_sort
+
+// ---------- termination measure ----------
+spec fn unv(f: Frame) -> int { if f.visited { 0 } else { 1 } }
+spec fn count_unv(s: Seq<Frame>) -> int decreases s.len() { if s.len() == 0 { 0 } else { count_unv(s.drop_last()) + unv(s.last()) } }
+spec fn has(v: FrameBufferValue) -> int { if v.opt_frame is Some { 1 } else { 0 } }
+spec fn count_some(s: Seq<FrameBufferValue>) -> int decreases s.len() { if s.len() == 0 { 0 } else { count_some(s.drop_last()) + has(s.last()) } }
+proof fn count_unv_nonneg(s: Seq<Frame>) ensures count_unv(s) >= 0 decreases s.len() { if s.len() > 0 { count_unv_nonneg(s.drop_last()); } }
+proof fn count_some_nonneg(s: Seq<FrameBufferValue>) ensures count_some(s) >= 0 decreases s.len() { if s.len() > 0 { count_some_nonneg(s.drop_last()); } }
+proof fn count_unv_push(s: Seq<Frame>, f: Frame) ensures count_unv(s.push(f)) == count_unv(s) + unv(f) { assert(s.push(f).drop_last() =~= s); }
+proof fn count_unv_remove(s: Seq<Frame>, p: int) requires 0 <= p < s.len() ensures count_unv(s.remove(p)) == count_unv(s) - unv(s[p])
+    decreases s.len()
+{
+    if p == s.len() - 1 { assert(s.remove(p) =~= s.drop_last()); }
+    else {
+        count_unv_remove(s.drop_last(), p);
+        assert(s.remove(p).drop_last() =~= s.drop_last().remove(p));
+        assert(s.remove(p).last() == s.last());
+    }
+}
+proof fn count_some_update(s: Seq<FrameBufferValue>, b: int, v: FrameBufferValue) requires 0 <= b < s.len() ensures count_some(s.update(b, v)) == count_some(s) - has(s[b]) + has(v)
+    decreases s.len()
+{
+    if b == s.len() - 1 { assert(s.update(b, v).drop_last() =~= s.drop_last()); }
+    else {
+        count_some_update(s.drop_last(), b, v);
+        assert(s.update(b, v).drop_last() =~= s.drop_last().update(b, v));
+        assert(s.update(b, v).last() == s.last());
+    }
+}
+spec fn all_unv(v: Seq<Frame>) -> bool { forall|p: int| 0 <= p < v.len() ==> !(#[trigger] v[p]).visited }
+proof fn count_all_unv(s: Seq<Frame>) requires all_unv(s) ensures count_unv(s) == s.len()
+    decreases s.len()
+{ if s.len() > 0 { assert(all_unv(s.drop_last())) by { assert forall|p: int| 0 <= p < s.drop_last().len() implies !(#[trigger] s.drop_last()[p]).visited by { assert(s.drop_last()[p] == s[p]); } } count_all_unv(s.drop_last()); } }
+
+// ---------- safety vocabulary: tl[b] = number of targets of the rule at buffer index b ----------
+spec fn fok(f: Frame, tl: Seq<int>) -> bool { f.index < tl.len() && f.targets@.len() == tl[f.index as int] && f.sub_index < f.targets@.len() }
+spec fn all_fok(v: Seq<Frame>, tl: Seq<int>) -> bool { forall|p: int| 0 <= p < v.len() ==> fok(#[trigger] v[p], tl) }
+// how one source is bound: a leaf of that name at that position, or the owning rule's final position and the target's position in it
+spec fn src_bound(si: SourceIndex, src: String, leaves: Seq<String>, m: Map<String, (usize, usize)>, fb: Seq<FrameBufferValue>) -> bool {
+    match si {
+        SourceIndex::Leaf(i) => i < leaves.len() && leaves[i as int] == src,
+        SourceIndex::Pair(p, sub) => !leaves.contains(src) && m.contains_key(src) && m[src].0 < fb.len() && p == fb[m[src].0 as int].final_index && sub == m[src].1,
+    }
+}
+spec fn node_of(n: Node, f: Frame, leaves: Seq<String>, m: Map<String, (usize, usize)>, fb: Seq<FrameBufferValue>) -> bool {
+    &&& n.targets == f.targets && n.command == f.command && n.rule_ticket == f.rule_ticket
+    &&& n.source_indices@.len() == f.sources@.len()
+    &&& forall|k: int| 0 <= k < f.sources@.len() ==> src_bound(#[trigger] n.source_indices@[k], f.sources@[k], leaves, m, fb)
+}
+// every one of the first k sources of f is a rule's target (in the index map) or a recorded leaf
+spec fn srcs_known(f: Frame, m: Map<String, (usize, usize)>, leaves: Set<String>, k: int) -> bool {
+    forall|j: int| 0 <= j < k ==> m.contains_key(#[trigger] f.sources@[j]) || leaves.contains(f.sources@[j])
+}
+spec fn all_known(v: Seq<Frame>, m: Map<String, (usize, usize)>, leaves: Set<String>, only_visited: bool) -> bool {
+    forall|p: int| 0 <= p < v.len() ==> ((#[trigger] v[p]).visited || !only_visited) ==> srcs_known(v[p], m, leaves, v[p].sources@.len() as int)
+}
+proof fn known_mono(v: Seq<Frame>, m: Map<String, (usize, usize)>, l1: Set<String>, l2: Set<String>, ov: bool)
+    requires all_known(v, m, l1, ov), l1.subset_of(l2) ensures all_known(v, m, l2, ov)
+{
+    assert forall|p: int| 0 <= p < v.len() && ((#[trigger] v[p]).visited || !ov) implies srcs_known(v[p], m, l2, v[p].sources@.len() as int) by {
+        assert(srcs_known(v[p], m, l1, v[p].sources@.len() as int));
+    }
+}
+impl TopologicalSortMachine {
+    // every emitted frame knows where each of its sources comes from (needed by get_result's unwrap)
+    spec fn wf_e(&self) -> bool { all_known(self.frames_in_order@, self.to_buffer_index@, self.source_leaves@, false) }
+    // machine well-formedness, safety part: buffered frames sit at their own index with at least one target; the target index
+    // only mentions existing (rule, position) pairs
+    spec fn wf_s(&self, tl: Seq<int>) -> bool {
+        &&& self.frame_buffer@.len() == tl.len()
+        &&& forall|b: int| 0 <= b < tl.len() ==> ((#[trigger] self.frame_buffer@[b]).opt_frame matches Some(f) ==> f.index == b && f.sub_index == 0 && !f.visited && fok(f, tl))
+        &&& forall|key: String| #![trigger self.to_buffer_index@[key]] self.to_buffer_index@.contains_key(key) ==> self.to_buffer_index@[key].0 < tl.len() && self.to_buffer_index@[key].1 < tl[self.to_buffer_index@[key].0 as int]
+    }
+
+//@ extract sort.rs impl /^TopologicalSortMachine$/ fn sort_once
 //@ props C12 C05
 //@ ret res
-//@ rewrite 1 /to_buffer_index\.get\(goal_target\)/ => map_get_str(&to_buffer_index, goal_target)
+//@ rewrite 1 /HashSet::new\(\)/ => HashSet::<usize>::new()
+//@ rewrite 1 /stack\.iter\(\)\.position\(\|f\| f\.index == \*buffer_index && !f\.visited\)/ => position_unvisited(&stack, *buffer_index)
+//@ rewrite 1 /source\.to_owned\(\)/ => string_to_owned(source)
+//@ retype 1 /let mut reverser = vec!\[\];/ => let mut reverser : Vec<Frame> = Vec::new();
+//@ retype 1 /let mut target_cycle = vec!\[\];/ => let mut target_cycle : Vec<String> = Vec::new();
+//@ param Ghost(tl): Ghost<Seq<int>>
 //@ spec
-    requires rules@.len() <= usize::MAX,
+        requires old(self).wf_s(tl), old(self).wf_e(), index < tl.len(), sub_index < tl[index as int],
+        ensures final(self).wf_s(tl),                                                     //# O-S-machine-wf [C12,C05]
+            res is Ok ==> final(self).wf_e(),                                             //# O-S-sources-known [C12,C05]
+            final(self).to_buffer_index@ == old(self).to_buffer_index@,
+//@ hint start
+        broadcast use vstd::std_specs::hash::group_hash_axioms;
+        proof { string_key_model(); usize_key_model(); }
+//@ loop 1 invariant
+            invariant self.wf_s(tl), all_fok(stack@, tl), obeys_key_model::<String>(), obeys_key_model::<usize>(),
+                self.wf_e(), all_known(stack@, self.to_buffer_index@, self.source_leaves@, true), self.to_buffer_index@ == old(self).to_buffer_index@,
+            decreases count_some(self.frame_buffer@) + count_unv(stack@), stack@.len(),
+//@ hint after 1/1 /while let Some\(frame\) = stack\.pop\(\)\s*\{/
+            let ghost fb0 = self.frame_buffer@; let ghost st0 = stack@;     // (stack already popped: st0 is the rest)
+            let ghost m0 = count_some(fb0) + count_unv(st0) + unv(frame);
+            proof { count_unv_nonneg(st0); count_some_nonneg(fb0); assert(st0.push(frame).drop_last() =~= st0); }
+//@ hint after 1/1 /self\.frame_buffer\[frame\.index\]\.final_index = self\.frames_in_order\.len\(\);/
+                proof { count_some_update(fb0, frame.index as int, self.frame_buffer@[frame.index as int]); assert(self.frame_buffer@ =~= fb0.update(frame.index as int, self.frame_buffer@[frame.index as int])); }
+//@ loop 2 binder it
+//@ loop 2 invariant
+                    invariant self.wf_s(tl), all_fok(stack@, tl), all_fok(reverser@, tl), fok(frame, tl), obeys_key_model::<String>(), obeys_key_model::<usize>(),
+                        all_unv(reverser@), !frame.visited,
+                        self.wf_e(), all_known(stack@, self.to_buffer_index@, self.source_leaves@, true), self.to_buffer_index@ == old(self).to_buffer_index@,
+                        srcs_known(frame, self.to_buffer_index@, self.source_leaves@, it.index@),
+                        count_some(self.frame_buffer@) + count_unv(stack@) + reverser@.len() == m0 - 1,
+//@ loop 3 binder it3
+//@ loop 3 invariant
+                                                invariant all_fok(stack@, tl), fok(frame, tl),
+//@ loop 4 invariant
+                    invariant self.wf_s(tl), all_fok(stack@, tl), all_fok(reverser@, tl), obeys_key_model::<usize>(),
+                        all_unv(reverser@),
+                        self.wf_e(), all_known(stack@, self.to_buffer_index@, self.source_leaves@, true), self.to_buffer_index@ == old(self).to_buffer_index@,
+                        count_some(self.frame_buffer@) + count_unv(stack@) + reverser@.len() == m0 - 1,
+                    ensures reverser@.len() == 0,
+                    decreases reverser@.len(),
+//@ hint before 1/1 /if let Some\(mut frame\) = self\.frame_buffer\[\*buffer_index\]\.opt_frame\.take\(\)/
+                            let ghost fb1 = self.frame_buffer@; let ghost rv1 = reverser@; let ghost st1 = stack@;
+//@ hint after 1/1 /frame\.sub_index = \*sub_index;\s*reverser\.push\(frame\);/
+                                proof {
+                                    assert(self.frame_buffer@ =~= fb1.update(*buffer_index as int, self.frame_buffer@[*buffer_index as int]));
+                                    count_some_update(fb1, *buffer_index as int, self.frame_buffer@[*buffer_index as int]);
+                                }
+//@ hint after 1/1 /sibling\.sub_index = \*sub_index;\s*reverser\.push\(sibling\);/
+                                            proof { count_unv_remove(st1, position as int); assert(self.frame_buffer@ =~= fb1); }
+//@ hint before 1/1 /self\.source_leaves\.insert\(/
+                            let ghost lv0 = self.source_leaves@;
+//@ hint after 1/1 /self\.source_leaves\.insert\(source\.to_owned\(\)\);/
+                            proof {
+                                known_mono(self.frames_in_order@, self.to_buffer_index@, lv0, self.source_leaves@, false);
+                                known_mono(stack@, self.to_buffer_index@, lv0, self.source_leaves@, true);
+                                assert(srcs_known(frame, self.to_buffer_index@, lv0, it.index@));
+                            }
+//@ hint before 1/1 /\},\s*None =>\s*\{\s*self\.source_leaves\.insert/
+                            proof { if reverser@.len() == rv1.len() { assert(self.frame_buffer@ =~= fb1); } }
+//@ hint after 1/1 /stack\.push\(frame\.visit\(\)\);/
+                proof { count_unv_push(st_before_visit, stack@.last()); }
+//@ hint before 1/1 /stack\.push\(frame\.visit\(\)\);/
+                let ghost st_before_visit = stack@;
+//@ hint after 1/1 /while let Some\(f\) = reverser\.pop\(\)\s*\{/
+                    let ghost st4 = stack@;
+//@ hint after 1/1 /indices_in_stack\.insert\(f\.index\);\s*stack\.push\(f\);/
+                    proof { count_unv_push(st4, f); }
+//@ end
+
+//@ extract sort.rs impl /^TopologicalSortMachine$/ fn new
+//@ props C12 C05
+//@ ret res
+//@ rewrite 1 /BTreeSet::new\(\)/ => BTreeSet::<String>::new()
+//@ spec
+        ensures res.frame_buffer == frame_buffer, res.to_buffer_index == to_buffer_index, res.frames_in_order@.len() == 0, res.source_leaves@ == Set::<String>::empty(),
+//@ end
+
+//@ extract sort.rs impl /^TopologicalSortMachine$/ fn get_result
+//@ props C12 C05 C01
+//@ attr #[verifier::loop_isolation(false)]
+//@ ret res
+//@ param Ghost(tl): Ghost<Seq<int>>
+//@ insert before 1/1 /for leaf in self\.source_leaves/ => let leaf_vec = btree_into_vec(self.source_leaves);
+//@ rewrite 1 /(?<=for leaf in )self\.source_leaves/ => leaf_vec
+//@ rewrite 1 /self\.frames_in_order\.drain\(\.\.\)/ => self.frames_in_order
+//@ rewrite 1 /frame\.sources\.drain\(\.\.\)/ => frame.sources
+//@ rewrite 1 /get_result\(mut self/ => get_result(self
+//@ retype 1 /let mut num_leaves = 0;/ => let mut num_leaves : usize = 0;
+//@ retype 1 /let mut nodes = Vec::new\(\);/ => let mut nodes : Vec<Node> = Vec::new();
+//@ retype 1 /let mut leaves = Vec::new\(\);/ => let mut leaves : Vec<String> = Vec::new();
+//@ retype 1 /let mut leaf_to_index = HashMap::new\(\);/ => let mut leaf_to_index : HashMap<String, usize> = HashMap::new();
+//@ retype 1 /let mut source_indices = vec!\[\];/ => let mut source_indices : Vec<SourceIndex> = Vec::new();
+//@ spec
+        requires self.wf_s(tl), self.wf_e(),
+        ensures
+            // never fails, never panics: every source of every emitted rule is a recorded leaf or an indexed target (the unwrap)      //# O-S-result-total [C05,C12]
+            res matches Ok(pack) ==> pack.nodes@.len() == self.frames_in_order@.len()
+                // leaves: exactly the recorded leaf paths, each once
+                && (forall|x: String| self.source_leaves@.contains(x) <==> #[trigger] pack.leaves@.contains(x)) && pack.leaves@.no_duplicates()
+                // node i is emitted frame i with every source bound by name: to the leaf of that name, or to (final position of the
+                // rule owning that target, position of the target in that rule)                                                          //# O-S-binding [C12,C01]
+                && (forall|i: int| 0 <= i < pack.nodes@.len() ==> node_of(#[trigger] pack.nodes@[i], self.frames_in_order@[i], pack.leaves@, self.to_buffer_index@, self.frame_buffer@)),
+            res is Ok,
+//@ hint start
+        broadcast use vstd::std_specs::hash::group_hash_axioms;
+        proof { string_key_model(); }
+        let ghost m = self.to_buffer_index@; let ghost fb = self.frame_buffer@; let ghost leafset = self.source_leaves@; let ghost fio = self.frames_in_order@;
+//@ loop 1 binder it
+//@ loop 1 invariant
+            invariant num_leaves == it.index@, leaves@ =~= leaf_vec@.subrange(0, it.index@),
+                forall|x: String| #![trigger leaf_to_index@.contains_key(x)] leaf_to_index@.contains_key(x) ==> leaf_to_index@[x] < it.index@ && leaf_vec@[leaf_to_index@[x] as int] == x,
+                forall|j: int| 0 <= j < it.index@ ==> leaf_to_index@.contains_key(#[trigger] leaf_vec@[j]),
+//@ hint after 1/1 /num_leaves \+= 1;/
+            proof { assert(leaves@ =~= leaf_vec@.subrange(0, it.index@ + 1)); }
+//@ hint before 1/1 /for mut frame in self\.frames_in_order\.drain\(\.\.\)/
+        proof { assert(leaves@ =~= leaf_vec@); }
+//@ loop 2 binder it2
+//@ loop 2 invariant
+            invariant nodes@.len() == it2.index@,
+                forall|i: int| 0 <= i < it2.index@ ==> node_of(#[trigger] nodes@[i], fio[i], leaves@, m, fb),
+//@ hint after 1/1 /let mut source_indices = vec!\[\];/
+            let ghost fr0 = frame;
+            proof { assert(fr0 == fio[it2.index@]); assert(srcs_known(fr0, m, leafset, fr0.sources@.len() as int)); }
+//@ loop 3 binder it3
+//@ loop 3 invariant
+                invariant source_indices@.len() == it3.index@,
+                    forall|k: int| 0 <= k < it3.index@ ==> src_bound(#[trigger] source_indices@[k], fr0.sources@[k], leaves@, m, fb),
+//@ hint before 1/1 /match leaf_to_index\.get\(&source\)/
+                proof {
+                    assert(source == fr0.sources@[it3.index@]);
+                    if !leaf_to_index@.contains_key(source) {
+                        if leafset.contains(source) { assert(leaf_vec@.contains(source)); let j = choose|j: int| 0 <= j < leaf_vec@.len() && leaf_vec@[j] == source; assert(leaf_to_index@.contains_key(leaf_vec@[j])); }
+                    }
+                }
+//@ end
+}
+
+
+spec fn some_target(tab: Seq<RuleSpec>, t: Seq<char>) -> bool { exists|b: int, s: int| #![trigger is_target(tab, b, s, t)] is_target(tab, b, s, t) }
+
+// number of targets per sorted rule
+spec fn tcounts(tab: Seq<RuleSpec>) -> Seq<int> { Seq::new(tab.len(), |b: int| tab[b].targets.len() as int) }
+// parser-producible rule sets: every rule has at least one target
+spec fn nonempty_targets(rs: Seq<Rule>) -> bool { forall|i: int| 0 <= i < rs.len() ==> (#[trigger] rs[i]).targets@.len() > 0 }
+proof fn sorted_nonempty(rs: Seq<RuleSpec>, b: int)
+    requires forall|i: int| 0 <= i < rs.len() ==> (#[trigger] rs[i]).targets.len() > 0, 0 <= b < sort_rules_spec(rs).len()
+    ensures sort_rules_spec(rs)[b].targets.len() > 0
+{
+    sort_rules_axioms(rs);
+    let x = sort_rules_spec(rs)[b];
+    sort_rules_spec(rs).to_multiset_ensures(); rs.to_multiset_ensures();
+    assert(sort_rules_spec(rs).to_multiset().count(x) > 0);
+    assert(rs.contains(x));
+    let j = choose|j: int| 0 <= j < rs.len() && rs[j] == x;
+    assert(rs[j].targets.len() > 0);
+}
+// the frame table handed to the machine is well formed for the machine
+proof fn table_wf(fb: Seq<FrameBufferValue>, m: Map<String, (usize, usize)>, tab: Seq<RuleSpec>)
+    requires fb.len() == tab.len(), forall|b: int| 0 <= b < tab.len() ==> slot_ok(#[trigger] fb[b], tab[b], b), index_ok(m, tab, tab.len() as int),
+        forall|b: int| 0 <= b < tab.len() ==> (#[trigger] tab[b]).targets.len() > 0,
     ensures
-        // a goal that is no rule's target is reported as missing, by name (when no path is a target twice)       //# O-S-missing [C12]
+        forall|b: int| 0 <= b < tab.len() ==> ((#[trigger] fb[b]).opt_frame matches Some(f) ==> f.index == b && f.sub_index == 0 && !f.visited && fok(f, tcounts(tab))),
+        forall|key: String| #![trigger m[key]] m.contains_key(key) ==> m[key].0 < tcounts(tab).len() && m[key].1 < tcounts(tab)[m[key].0 as int],
+{
+    assert forall|b: int| 0 <= b < tab.len() implies ((#[trigger] fb[b]).opt_frame matches Some(f) ==> f.index == b && f.sub_index == 0 && !f.visited && fok(f, tcounts(tab))) by {
+        assert(slot_ok(fb[b], tab[b], b)); sort_axioms(tab[b].targets);
+        let f = fb[b].opt_frame->Some_0;
+        assert(strs(f.targets@).len() == f.targets@.len());
+    }
+    assert forall|key: String| #![trigger m[key]] m.contains_key(key) implies m[key].0 < tcounts(tab).len() && m[key].1 < tcounts(tab)[m[key].0 as int] by {
+        assert(is_target(tab, m[key].0 as int, m[key].1 as int, key@));
+    }
+}
+
+//@ extract sort.rs fn topological_sort
+//@ props C12 C05 C01
+//@ ret res
+//@ rewrite 1 /to_buffer_index\.get\(goal_target\)/ => map_get_str(&to_buffer_index, goal_target)
+//@ addarg * /machine\.sort_once|machine\.get_result/ Ghost(tl)
+//@ spec
+    requires rules@.len() <= usize::MAX, nonempty_targets(rules@),
+    ensures
+        // total: for every rule set the analysis returns a plan or an error -- no panic (index, unwrap), termination         //# O-S-total [C05,C12]
+        // a goal that is no rule's target is reported as missing, by name (when no path is a target twice)                    //# O-S-missing [C12]
         (!some_target(sort_rules_spec(rules_view(rules@)), goal_target@) && !(res matches Err(TopologicalSortError::TargetInMultipleRules(_))))
             ==> (res matches Err(TopologicalSortError::TargetMissing(g)) && g@ == goal_target@),
-        res matches Err(TopologicalSortError::TargetInMultipleRules(t)) ==> is_dup(sort_rules_spec(rules_view(rules@)), t@) || some_target(sort_rules_spec(rules_view(rules@)), goal_target@),
 //@ hint start
     broadcast use vstd::std_specs::hash::group_hash_axioms;
     proof { string_key_model(); }
-//@ hint after 1/1 /let \(frame_buffer, to_buffer_index\) = rules_to_frame_buffer\(rules\)\?;/
     let ghost tab = sort_rules_spec(rules_view(rules@));
+    let ghost tl = tcounts(tab);
+    let ghost rv = rules_view(rules@);
+//@ hint after 1/1 /let \(frame_buffer, to_buffer_index\) = rules_to_frame_buffer\(rules\)\?;/
     proof {
         assert forall|key: String| key@ == goal_target@ && #[trigger] to_buffer_index@.contains_key(key) implies some_target(tab, goal_target@) by {
             assert(is_target(tab, to_buffer_index@[key].0 as int, to_buffer_index@[key].1 as int, key@));
         }
+        assert forall|i: int| 0 <= i < rv.len() implies (#[trigger] rv[i]).targets.len() > 0 by { assert(rv[i] == rule_view(rules@[i])); assert(rules@[i].targets@.len() > 0); }
+        assert forall|b: int| 0 <= b < tab.len() implies (#[trigger] tab[b]).targets.len() > 0 by { sorted_nonempty(rv, b); }
+        table_wf(frame_buffer@, to_buffer_index@, tab);
     }
 //@ end
 
 //@ extract sort.rs fn topological_sort_all
-//@ props C12 C05
+//@ props C12 C05 C01
+//@ attr #[verifier::loop_isolation(false)]
 //@ ret res
+//@ addarg * /machine\.sort_once|machine\.get_result/ Ghost(tl)
 //@ spec
-    requires rules@.len() <= usize::MAX,
-    ensures res matches Err(TopologicalSortError::TargetInMultipleRules(t)) ==> true,
+    requires rules@.len() <= usize::MAX, nonempty_targets(rules@),
+    ensures true,       // total: no panic, termination (native obligations)                                                  //# O-S-total-all [C05,C12]
+//@ hint start
+    let ghost tab = sort_rules_spec(rules_view(rules@));
+    let ghost tl = tcounts(tab);
+    let ghost rv = rules_view(rules@);
+//@ hint after 1/1 /let \(frame_buffer, to_buffer_index\) = rules_to_frame_buffer\(rules\)\?;/
+    proof {
+        assert forall|i: int| 0 <= i < rv.len() implies (#[trigger] rv[i]).targets.len() > 0 by { assert(rv[i] == rule_view(rules@[i])); assert(rules@[i].targets@.len() > 0); }
+        assert forall|b: int| 0 <= b < tab.len() implies (#[trigger] tab[b]).targets.len() > 0 by { sorted_nonempty(rv, b); }
+        table_wf(frame_buffer@, to_buffer_index@, tab);
+    }
 //@ loop 1 invariant
-        invariant frame_buffer_len == frame_buffer_len,
+        invariant machine.wf_s(tl), machine.wf_e(), frame_buffer_len == tl.len(),
 //@ end
 
 // path t is a target at two different places of the table
